@@ -139,6 +139,8 @@ impl Container {
         }
         let cache_slot = &self.packs[pack_id.into_usize()];
         if cache_slot.get().is_none() {
+            #[cfg(jubako_verif)]
+            crate::verif::point("ct.pack", pack_id.into_u64(), 0);
             match self._get_pack(pack_id)? {
                 None => return Ok(None),
                 Some(MayMissPack::MISSING(pack_info)) => {
